@@ -291,6 +291,40 @@ pub fn judge(text: &str, origin: &str, flags: &Flags, k: usize, rcomp: &str, bas
     } else {
         rep.count("grammar_rejected_under_these_options", 1);
     }
+    // (d) an output directory that already holds the files of other option vectors (rcomp writes next to the grammar,
+    // so switching options rewrites existing files): same bytes as in a fresh directory. -f regenerates the actions too.
+    if cli.0.is_some() {
+        let alts = [
+            Flags { glr: !flags.glr, table: None, ..flags.clone() },
+            Flags { arrays: Some(!flags.arrays.unwrap_or(false)), ..flags.clone() },
+            Flags { builder: Some(if flags.builder.unwrap_or(0) == 0 { 1 } else { 0 }), loc_info: !flags.loc_info, ..flags.clone() },
+        ];
+        let d = fresh(base, "hist", text);
+        let mut prepared = 0;
+        for alt in &alts {
+            if run_cli(rcomp, &d, alt).is_ok() && d.join("g.rs").exists() {
+                prepared += 1;
+            }
+            // the vector under test after every other one: whichever direction shrinks or grows the files
+            if run_cli(rcomp, &d, flags).is_ok() {
+                let o = outputs(&d);
+                rep.count("regenerations_over_existing_files", 1);
+                // a file this vector does not write at all (no actions with the generic builder) may be left over
+                if o.0 != cli.0 || (cli.1.is_some() && o.1 != cli.1) {
+                    let which = if o.0 != cli.0 { "parser" } else { "actions" };
+                    let diff = match which {
+                        "parser" => first_diff(cli.0.as_deref().unwrap_or(b""), o.0.as_deref().unwrap_or(b"")),
+                        _ => first_diff(cli.1.as_deref().unwrap_or(b""), o.1.as_deref().unwrap_or(b"")),
+                    };
+                    rep.violation("C17", &sig("history"), &format!("rcomp {} wrote a different {} file over the output of `rcomp {}` than into a fresh directory ({})", flags.argv().join(" "), which, alt.argv().join(" "), diff), case(json!({"previous_argv": alt.argv()})));
+                    break;
+                }
+            }
+        }
+        if prepared > 0 {
+            rep.count("histories_with_existing_files", 1);
+        }
+    }
     // (c) the library API with the equivalent settings
     let d = fresh(base, "api", text);
     match run_api(&d, flags) {
